@@ -53,6 +53,7 @@ class Inter:
         self._inline = {}
         self._summary = {}
         self._okpaths = {}
+        self._feas_depth = 0
 
     # ---------------------------------------------------------------- paths
     def paths(self, fn):
@@ -168,6 +169,15 @@ class Inter:
             if a2 == atom:
                 continue
             r = self.fold_cond(a2, outcome)
+            if r is None and self._feas_depth < 3:
+                # small pure helpers (sign tests on a literal Integer, ...) decide after inlining
+                self._feas_depth += 1
+                try:
+                    a3 = self.inline(a2, 3)
+                finally:
+                    self._feas_depth -= 1
+                if a3 != a2:
+                    r = self.fold_cond(a3, outcome)
             if r is False:
                 return False
         return True
